@@ -21,6 +21,7 @@ func init() {
 			{"C15.R4", "q", "home = path(id); paths derive from home", c15r4},
 			{"C15.R5", "q", "single writers of BucketID / TreeDepth", c15r5},
 			{"C15.R6", "q", "listing dispatch and READY-only aggregation", c15r6},
+			{"C08.R4", "q", "shared: upper tree refreshed from READY buckets, reset on every refresh", c08r4},
 		},
 	})
 }
